@@ -164,6 +164,8 @@ PROPS["C04"] = {
         ("R-PURE-PROJECTION", rp.rule_pure_projection, {}),
         ("R-SIBLING", rp2.rule_sibling, {"configs": ("parallel",)}),
         ("R-LM-CONTRACT", rules_lm.rule_lm_contract, {"configs": ("default",)}),
+        ("R-WHO-WRITES", rp2.rule_who_writes, {}),
+        ("R-INITIAL-SET-PARAMS", rp2.rule_initial_set_params, {}),
     ],
     "explanation": "fit(): minimize is called on the caller-configured solver with the caller's problem; Ok and Err carry the same FitResult built from the optimizer's final problem "
                    "(all five roles moved unchanged) and report; Ok is reachable only on the successful edge of TerminationReason::was_successful and Err only on the other; "
